@@ -185,6 +185,10 @@ pub enum Event<E: Effect> {
         results: ProcessResultsMap,
     },
 
+    /// A process has terminated (completed or failed; not a sleeping persistent process),
+    /// awaited or not. May be sent twice for the same process.
+    ProcessTerminated { process_id: ProcessId },
+
     /// Response to GetResult (only sent when process completes)
     ResultResponse {
         request_id: u64,
